@@ -839,7 +839,7 @@ Section TopLevel.
     assert (I : Inv ([] ++ defs) vv).
     { eapply (fold_res_inv _ (fun _ => eq_refl) (fun _ => eq_refl) Inv); [| |exact H].
       - intros n g G; discriminate.
-      - intros pre def m1 m2 Hi Hin Hs. cbn beta iota in Hs.
+      - intros pre def m1 m2 Hi Hin Hs. cbn [var_step] in Hs.
         destruct (negb (type_known E (vd_type def))); try discriminate.
         assert (Ext : forall c, conforms E c (vd_type def) = true -> Inv (pre ++ [def]) (mset (vd_name def) c m1)).
         { intros c Hcf n g G. rewrite aget_mset in G. destruct (bytes_eqb n (vd_name def)) eqn:B.
